@@ -91,7 +91,7 @@ theorem resolveTyWith_ne_none (r : RState) (k : String → Ty → Fuelled RTy) (
   | .string, _ => by simp [resolveTyWith]
   | .long, _ => by simp [resolveTyWith]
   | .bool, _ => by simp [resolveTyWith]
-  | .ext _, _ => by simp [resolveTyWith]
+  | .ext _, _ => by unfold resolveTyWith; split <;> simp
   | .entityRef n, _ => by
     unfold resolveTyWith
     split <;> simp
